@@ -506,3 +506,482 @@ Proof.
 Qed.
 
 End WithOracle.
+
+(* ------------------------------------------------------------------------------------------ *)
+(* refinement: the simulation relation and one lemma per operation                             *)
+(* ------------------------------------------------------------------------------------------ *)
+
+Definition R (c : ctx) (a : astate) : Prop := c_kind c = KHashMap /\ aeq (abs c) a.
+
+Lemma aeq_refl a : aeq a a.
+Proof. repeat split. Qed.
+
+Lemma R_initial : R empty_hashmap a_empty.
+Proof. split; [reflexivity|]. repeat split. Qed.
+
+Lemma R_abs c : c_kind c = KHashMap -> R c (abs c).
+Proof. intros K. split; [exact K|apply aeq_refl]. Qed.
+
+Lemma with_kind_id c : c_kind c = KHashMap -> with_kind KHashMap c = c.
+Proof. destruct c as [k vs fs o]. cbn. intros ->. reflexivity. Qed.
+
+Lemma as_hashmap_id c : c_kind c = KHashMap -> as_hashmap c = c.
+Proof. destruct c as [k vs fs o]. cbn. intros ->. reflexivity. Qed.
+
+Lemma R_bound c a x v : R c a ->
+  R (mkctx KHashMap (assoc_set x v (c_vars c)) (c_funs c) (c_off c)) (mkA (upd (vars a) x v) (funs a) (off a)).
+Proof.
+  intros [K [Hv [Hf Ho]]]. split; [reflexivity|].
+  unfold abs, get_value, lookup_function, are_builtin_functions_disabled, has_store in *. rewrite K in *. cbn in *.
+  repeat split; cbn; auto.
+  intros y. rewrite assoc_set_upd. unfold upd. destruct (str_eqb y x); [reflexivity|apply Hv].
+Qed.
+
+Lemma sim_bind c a x v : R c a ->
+  match set_value c x v with
+  | Ok c' => exists a', a_bind a x v = Ok a' /\ R c' a'
+  | Err e => a_bind a x v = Err e
+  | Panic s => False
+  end.
+Proof.
+  intros HR. pose proof (R_bound c a x v HR) as HN. destruct HR as [K [Hv [Hf Ho]]].
+  unfold a_bind. rewrite <- Hv. cbn [abs vars].
+  unfold set_value, get_value, has_store. rewrite K.
+  destruct (assoc x (c_vars c)) as [old|].
+  - rewrite same_type_spec. destruct (vtype_eqb (type_of old) (type_of v)).
+    + eexists. split; [reflexivity|exact HN].
+    + rewrite type_error_spec. reflexivity.
+  - eexists. split; [reflexivity|exact HN].
+Qed.
+
+Section Refinement.
+Variable O : std_oracle.
+
+Lemma sim_call c a lg f v : R c a -> call_function O c lg f v = a_call O a lg f v.
+Proof.
+  intros [K [Hv [Hf Ho]]]. cbn [abs vars funs off] in Hv, Hf, Ho.
+  unfold call_function, a_call, a_builtin. rewrite <- Hf, <- Ho.
+  destruct (lookup_function c f) as [g|].
+  - destruct (g v) as [r|e|s]; try reflexivity. destruct e; try reflexivity.
+    destruct (are_builtin_functions_disabled c); [reflexivity|].
+    destruct (builtin_function O f); reflexivity.
+  - destruct (are_builtin_functions_disabled c); [reflexivity|].
+    destruct (builtin_function O f); reflexivity.
+Qed.
+
+Lemma op_eval_ctx_free o args c lg :
+  match o with
+  | OVariableIdentifierRead _ | OFunctionIdentifier _ => True
+  | _ => op_eval O o args c lg = context_free O o args lg
+  end.
+Proof. destruct o; try exact I; reflexivity. Qed.
+
+Lemma a_op_mut_irrelevant o args a lg : is_assign_op o = false -> a_op O true o args a lg = a_op O false o args a lg.
+Proof. destruct o; try discriminate; reflexivity. Qed.
+
+(* operators on an immutable context *)
+Lemma sim_op_ro o args c a lg : R c a ->
+  a_op O false o args a lg = (fst (op_eval O o args c lg), a, snd (op_eval O o args c lg)).
+Proof.
+  intros HR. pose proof (op_eval_ctx_free o args c lg) as F.
+  destruct o as [| | | | | | | | | | | | | | | | | | | | | | | | | | | | cv|ws|s|s]; cbn [a_op]; try (rewrite F; destruct (context_free O _ args lg); reflexivity).
+  - (* variable read *)
+    destruct HR as [K [Hv _]]. cbn [abs vars] in Hv. unfold a_lookup. rewrite <- Hv.
+    destruct args as [|v0 rest]; cbn; [destruct (get_value c s); reflexivity|reflexivity].
+  - (* function call *)
+    destruct args as [|v0 [|v1 rest]].
+    + reflexivity.
+    + cbn. rewrite (sim_call c a lg s v0 HR). destruct (a_call O a lg s v0). reflexivity.
+    + cbn [op_eval]. unfold expect_operator_argument_amount, nargs. cbn [length].
+      rewrite (N_of_nat_S2_neq (length rest) 1) by lia. reflexivity.
+Qed.
+
+(* operators on a mutable context *)
+Lemma sim_op o args c a lg r c' lg' : R c a ->
+  op_eval_mut O o args c lg = (r, c', lg') ->
+  exists a', a_op O true o args a lg = (r, a', lg') /\ R c' a'.
+Proof.
+  intros HR H. destruct (is_assign_op o) eqn:A.
+  - assert (G: forall (RC : outcome ctx) (RA : outcome astate),
+              match RC with
+              | Ok c1 => exists a1, RA = Ok a1 /\ R c1 a1
+              | Err e => RA = Err e
+              | Panic s => RA = Panic s
+              end ->
+              finish c lg RC = (r, c', lg') ->
+              exists a', match RA with Ok a' => (Ok VEmpty, a', lg) | Err e => (Err e, a, lg) | Panic s => (Panic s, a, lg) end
+                         = (r, a', lg') /\ R c' a').
+    { intros RC RA HM HF. destruct RC as [c1|e|s]; cbn [finish] in HF; inversion HF; subst r c' lg'.
+      - destruct HM as [a1 [-> R1]]. eauto.
+      - rewrite HM. eauto.
+      - rewrite HM. eauto. }
+    destruct (assign_base o) as [b|] eqn:B.
+    + rewrite (op_eval_mut_opassign O o b args c lg B) in H.
+      assert (E: a_op O true o args a lg =
+                 match (do '(x, v) <- a_target args; do cur <- a_lookup a x;
+                        do r <- fst (context_free O b [cur; v] lg); a_bind a x r) with
+                 | Ok a' => (Ok VEmpty, a', lg) | Err e => (Err e, a, lg) | Panic s => (Panic s, a, lg) end).
+      { destruct o; try discriminate B; inversion B; subst b; reflexivity. }
+      rewrite E. eapply G; [|exact H].
+      destruct (a_target args) as [[x v]|e|s]; cbn [bind]; try reflexivity.
+      unfold c_lookup, a_lookup. destruct HR as [K [Hv HR']]. cbn [abs vars] in Hv. rewrite <- Hv.
+      destruct (get_value c x) as [cur|]; cbn [bind]; [|reflexivity].
+      rewrite (base_op_pure O o b [cur; v] c lg B). cbn [fst].
+      destruct (fst (context_free O b [cur; v] lg)) as [r0|e|s]; cbn [bind]; try reflexivity.
+      pose proof (sim_bind c a x r0 (conj K (conj Hv HR'))) as S.
+      destruct (set_value c x r0); [exact S|exact S|contradiction].
+    + destruct o; try discriminate A; try discriminate B.
+      rewrite op_eval_mut_assign in H. cbn [a_op]. eapply G; [|exact H].
+      destruct (a_target args) as [[x v]|e|s]; cbn [bind]; try reflexivity.
+      pose proof (sim_bind c a x v HR) as S.
+      destruct (set_value c x v); [exact S|exact S|contradiction].
+  - rewrite (op_eval_mut_other O o args c lg A) in H. inversion H; subst.
+    exists a. split; [|exact HR]. rewrite (a_op_mut_irrelevant o args a lg A). apply sim_op_ro. exact HR.
+Qed.
+
+Lemma a_eval_unfold mut o ch a lg :
+  a_eval O mut (Node o ch) a lg =
+  match a_seq (map (a_eval O mut) ch) a lg with
+  | (Ok vs, a1, lg1) => a_op O mut o vs a1 lg1
+  | (Err e, a1, lg1) => (Err e, a1, lg1)
+  | (Panic s, a1, lg1) => (Panic s, a1, lg1)
+  end.
+Proof. reflexivity. Qed.
+
+Definition sim_mut_at (n : node) : Prop :=
+  forall c a lg r c' lg', R c a -> eval_mut O n c lg = (r, c', lg') ->
+  exists a', a_eval O true n a lg = (r, a', lg') /\ R c' a'.
+
+Lemma sim_args_mut ch : Forall sim_mut_at ch ->
+  forall c a lg r c' lg', R c a -> eval_args_mut O ch c lg = (r, c', lg') ->
+  exists a', a_seq (map (a_eval O true) ch) a lg = (r, a', lg') /\ R c' a'.
+Proof.
+  induction 1 as [|x ch Hx Hch IH]; intros c a lg r c' lg' HR H; cbn [eval_args_mut map a_seq] in *.
+  - inversion H; subst. eauto.
+  - destruct (eval_mut O x c lg) as [[r1 c1] lg1] eqn:E1.
+    destruct (Hx c a lg r1 c1 lg1 HR E1) as [a1 [Ea1 R1]]. rewrite Ea1.
+    destruct r1 as [v|e|s]; [|inversion H; subst; eauto|inversion H; subst; eauto].
+    destruct (eval_args_mut O ch c1 lg1) as [[r2 c2] lg2] eqn:E2.
+    destruct (IH c1 a1 lg1 r2 c2 lg2 R1 E2) as [a2 [Ea2 R2]]. rewrite Ea2.
+    destruct r2; inversion H; subst; eauto.
+Qed.
+
+Lemma sim_eval_mut n : sim_mut_at n.
+Proof.
+  induction n as [o ch IH] using node_ind'. intros c a lg r c' lg' HR H.
+  rewrite eval_mut_unfold in H. rewrite a_eval_unfold.
+  destruct (eval_args_mut O ch c lg) as [[r1 c1] lg1] eqn:E1.
+  destruct (sim_args_mut ch IH c a lg r1 c1 lg1 HR E1) as [a1 [Ea1 R1]]. rewrite Ea1.
+  destruct r1 as [vs|e|s]; [|inversion H; subst; eauto|inversion H; subst; eauto].
+  eapply sim_op; eassumption.
+Qed.
+
+Definition sim_ro_at (n : node) : Prop :=
+  forall c a lg, R c a -> a_eval O false n a lg = (fst (eval_ro O n c lg), a, snd (eval_ro O n c lg)).
+
+Lemma sim_args_ro ch : Forall sim_ro_at ch ->
+  forall c a lg, R c a ->
+  a_seq (map (a_eval O false) ch) a lg = (fst (eval_args_ro O c ch lg), a, snd (eval_args_ro O c ch lg)).
+Proof.
+  induction 1 as [|x ch Hx Hch IH]; intros c a lg HR; [reflexivity|].
+  change (eval_args_ro O c (x :: ch) lg) with
+    (match eval_ro O x c lg with
+     | (Ok v, lg1) => match eval_args_ro O c ch lg1 with (Ok vs, lg2) => (Ok (v :: vs), lg2) | r => r end
+     | (Err e, lg1) => (Err e, lg1)
+     | (Panic s, lg1) => (Panic s, lg1)
+     end).
+  cbn [map a_seq]. rewrite (Hx c a lg HR).
+  destruct (eval_ro O x c lg) as [r1 lg1]. cbn [fst snd].
+  destruct r1 as [v|e|s]; try reflexivity.
+  rewrite (IH c a lg1 HR). destruct (eval_args_ro O c ch lg1) as [r2 lg2]. cbn [fst snd].
+  destruct r2; reflexivity.
+Qed.
+
+Lemma sim_eval_ro n : sim_ro_at n.
+Proof.
+  induction n as [o ch IH] using node_ind'. intros c a lg HR.
+  rewrite eval_ro_unfold, a_eval_unfold. rewrite (sim_args_ro ch IH c a lg HR).
+  destruct (eval_args_ro O c ch lg) as [r1 lg1]. cbn [fst snd].
+  destruct r1 as [vs|e|s]; try reflexivity.
+  apply sim_op_ro. exact HR.
+Qed.
+
+(* one entry point *)
+Lemma sim_entry m t src c a lg r c' lg' : R c a ->
+  run_entry O m t src c lg = (r, c', lg') ->
+  exists a', a_entry O m t src a lg = (r, a', lg') /\ R c' a' /\ (m <> MMut -> c' = c /\ a' = a).
+Proof.
+  intros HR H. unfold run_entry in H. unfold a_entry.
+  destruct (build_operator_tree src) as [n|e|p].
+  - destruct m.
+    + (* free: a fresh context on both sides *)
+      destruct (eval_mut O n empty_hashmap []) as [[r0 c0] lg0] eqn:E.
+      destruct (sim_eval_mut n _ _ _ _ _ _ R_initial E) as [a0 [Ea0 _]]. rewrite Ea0.
+      inversion H; subst. eauto.
+    + rewrite (sim_eval_ro n c a lg HR). destruct (eval_ro O n c lg) as [r0 lg0]. cbn [fst snd].
+      inversion H; subst. eauto.
+    + destruct (eval_mut O n c lg) as [[r0 c0] lg0] eqn:E.
+      destruct (sim_eval_mut n _ _ _ _ _ _ HR E) as [a0 [Ea0 R0]]. rewrite Ea0.
+      inversion H; subst. exists a0. split; [reflexivity|]. split; [exact R0|].
+      intros Hm. exfalso. apply Hm. reflexivity.
+  - inversion H; subst. eauto.
+  - inversion H; subst. eauto.
+Qed.
+
+(* one step of the history machine *)
+Lemma sim_step op c a lg c' lg' o : R c a ->
+  step O (c, lg) op = ((c', lg'), o) ->
+  exists a' ao, astep O (a, lg) op = ((a', lg'), ao) /\ R c' a' /\ out_match o ao.
+Proof.
+  intros HR H. pose proof HR as [K [Hv [Hf Ho]]]. cbn [abs vars funs off] in Hv, Hf, Ho.
+  assert (MK: mutable_kind c = true) by (unfold mutable_kind; rewrite K; reflexivity).
+  assert (HS: has_store c = true) by (unfold has_store; rewrite K; reflexivity).
+  destruct op as [x v|x v|f l|b| | | | |e src|e src|x|f v|]; cbn [step astep] in *.
+  - (* CSet *)
+    rewrite MK in H. pose proof (sim_bind c a x v HR) as S.
+    destruct (set_value c x v) as [c1|e|s]; cbn [ctx_or unit_of] in H; inversion H; subst.
+    + destruct S as [a1 [-> R1]]. cbn. eauto 6.
+    + rewrite S. cbn. eauto 6.
+    + contradiction.
+  - (* CInit *)
+    rewrite HS, (as_hashmap_id c K), K in H. pose proof (sim_bind c a x v HR) as S.
+    destruct (set_value c x v) as [c1|e|s] eqn:E; cbn [ctx_or unit_of] in H; inversion H; subst.
+    + destruct S as [a1 [-> R1]]. rewrite (with_kind_id c1 (proj1 R1)). cbn. eauto 6.
+    + rewrite S, (with_kind_id c K). cbn. eauto 6.
+    + contradiction.
+  - (* CSetFn *)
+    rewrite HS, (as_hashmap_id c K), K in H. unfold set_function in H. rewrite K in H.
+    cbn [ctx_or unit_of with_kind c_kind c_vars c_funs c_off] in H. inversion H; subst.
+    do 2 eexists. split; [reflexivity|]. split; [|reflexivity]. split; [reflexivity|].
+    unfold abs, get_value, lookup_function, are_builtin_functions_disabled, has_store in *. rewrite K in *. cbn in *.
+    repeat split; cbn; auto.
+    intros y. rewrite assoc_set_upd. unfold upd. destruct (str_eqb y f); [reflexivity|apply Hf].
+  - (* COff *)
+    unfold set_builtin_functions_disabled in H. rewrite K in H. cbn [ctx_or unit_of] in H. inversion H; subst.
+    do 2 eexists. split; [reflexivity|]. split; [|reflexivity]. split; [reflexivity|].
+    unfold abs, get_value, lookup_function, are_builtin_functions_disabled, has_store in *. rewrite K in *. cbn in *.
+    repeat split; cbn; auto.
+  - (* CClrV *)
+    rewrite HS in H. inversion H; subst.
+    do 2 eexists. split; [reflexivity|]. split; [|reflexivity]. split; [exact K|].
+    unfold abs, get_value, lookup_function, are_builtin_functions_disabled, has_store, clear_variables in *.
+    cbn [c_kind c_vars c_funs c_off]. rewrite K in *. cbn in *. repeat split; cbn; auto.
+  - (* CClrF *)
+    rewrite HS in H. inversion H; subst.
+    do 2 eexists. split; [reflexivity|]. split; [|reflexivity]. split; [exact K|].
+    unfold abs, get_value, lookup_function, are_builtin_functions_disabled, has_store, clear_functions in *.
+    cbn [c_kind c_vars c_funs c_off]. rewrite K in *. cbn in *. repeat split; cbn; auto.
+  - (* CClr *)
+    rewrite HS in H. inversion H; subst.
+    do 2 eexists. split; [reflexivity|]. split; [|reflexivity]. split; [exact K|].
+    unfold abs, get_value, lookup_function, are_builtin_functions_disabled, has_store, clear, clear_functions, clear_variables in *.
+    cbn [c_kind c_vars c_funs c_off]. rewrite K in *. cbn in *. repeat split; cbn; auto.
+  - (* CClone *)
+    rewrite HS in H. inversion H; subst. do 2 eexists. split; [reflexivity|]. split; [exact HR|reflexivity].
+  - (* CEv *)
+    destruct e as [|l m t].
+    + inversion H; subst. do 2 eexists. split; [reflexivity|]. split; [exact HR|reflexivity].
+    + destruct (run_entry O m t src c lg) as [[r0 c0] lg0] eqn:E.
+      destruct (sim_entry m t src c a lg r0 c0 lg0 HR E) as [a0 [Ea0 [R0 _]]]. rewrite Ea0.
+      destruct m; [| |rewrite MK in H]; inversion H; subst;
+        (do 2 eexists; split; [reflexivity|]; split; [exact R0|reflexivity]).
+  - (* CEvc *)
+    destruct e as [|l m t].
+    + inversion H; subst. do 2 eexists. split; [reflexivity|]. split; [exact HR|reflexivity].
+    + destruct (run_entry O m t src c lg) as [[r0 c0] lg0] eqn:E.
+      destruct (sim_entry m t src c a lg r0 c0 lg0 HR E) as [a0 [Ea0 [R0 Same]]]. rewrite Ea0.
+      destruct m; [| |rewrite MK in H]; inversion H; subst.
+      * destruct Same as [-> ->]; [discriminate|]. do 2 eexists; split; [reflexivity|]; split; [exact HR|reflexivity].
+      * destruct Same as [-> ->]; [discriminate|]. do 2 eexists; split; [reflexivity|]; split; [exact HR|reflexivity].
+      * do 2 eexists; split; [reflexivity|]; split; [exact HR|reflexivity].
+  - (* CGet *)
+    inversion H; subst. do 2 eexists. split; [reflexivity|]. split; [exact HR|]. cbn. apply Hv.
+  - (* CCall *)
+    rewrite <- Hf. destruct (lookup_function c f) as [g|]; inversion H; subst;
+      (do 2 eexists; split; [reflexivity|]; split; [exact HR|reflexivity]).
+  - (* CDump *)
+    inversion H; subst. do 2 eexists. split; [reflexivity|]. split; [exact HR|]. cbn. split; [exact Hv|split; [exact Hf|exact Ho]].
+Qed.
+
+(* the fold over a history *)
+Lemma sim_run ops : forall c a lg, R c a ->
+  let cr := run_script O (c, lg) ops in
+  let ar := arun O (a, lg) ops in
+  R (fst (fst cr)) (fst (fst ar)) /\ snd (fst cr) = snd (fst ar) /\ Forall2 out_match (snd cr) (snd ar).
+Proof.
+  induction ops as [|op ops IH]; intros c a lg HR; cbn zeta.
+  - cbn. repeat split; [apply HR..|constructor].
+  - cbn [run_script arun].
+    destruct (step O (c, lg) op) as [[c1 lg1] o1] eqn:E1.
+    destruct (sim_step op c a lg c1 lg1 o1 HR E1) as [a1 [ao1 [Ea1 [R1 M1]]]]. rewrite Ea1.
+    specialize (IH c1 a1 lg1 R1). cbn zeta in IH.
+    destruct (run_script O (c1, lg1) ops) as [[c2 lg2] os2].
+    destruct (arun O (a1, lg1) ops) as [[a2 alg2] aos2]. cbn [fst snd] in *.
+    destruct IH as [R2 [L2 F2]]. repeat split; [apply R2..|exact L2|constructor; assumption].
+Qed.
+
+Lemma refines ops c a lg : c_kind c = KHashMap -> aeq (abs c) a ->
+  c_kind (fst (fst (run_script O (c, lg) ops))) = KHashMap /\
+  aeq (abs (fst (fst (run_script O (c, lg) ops)))) (fst (fst (arun O (a, lg) ops))) /\
+  snd (fst (run_script O (c, lg) ops)) = snd (fst (arun O (a, lg) ops)) /\
+  Forall2 out_match (snd (run_script O (c, lg) ops)) (snd (arun O (a, lg) ops)).
+Proof.
+  intros K HA. pose proof (sim_run ops c a lg (conj K HA)) as H. cbn zeta in H.
+  destruct H as [[K' A'] [L F]]. auto.
+Qed.
+
+Lemma refines_initial ops :
+  aeq (abs (fst (fst (run_script O (empty_hashmap, []) ops)))) (fst (fst (arun O (a_empty, []) ops))) /\
+  snd (fst (run_script O (empty_hashmap, []) ops)) = snd (fst (arun O (a_empty, []) ops)) /\
+  Forall2 out_match (snd (run_script O (empty_hashmap, []) ops)) (snd (arun O (a_empty, []) ops)).
+Proof. destruct R_initial as [K HA]. apply (refines ops empty_hashmap a_empty [] K HA). Qed.
+
+End Refinement.
+
+(* ------------------------------------------------------------------------------------------ *)
+(* the invariant along histories, clearing, listing, cloning, expression assignment            *)
+(* ------------------------------------------------------------------------------------------ *)
+
+Lemma inv_with_kind k c : inv (with_kind k c) <-> inv c.
+Proof. reflexivity. Qed.
+Lemma inv_as_hashmap c : inv (as_hashmap c) <-> inv c.
+Proof. reflexivity. Qed.
+
+Section Histories.
+Variable O : std_oracle.
+
+Lemma run_entry_inv m t src c lg : inv c -> inv (ctx_of (run_entry O m t src c lg)).
+Proof.
+  intros Hi. unfold run_entry. destruct (build_operator_tree src) as [n|e|p]; [|exact Hi|exact Hi].
+  destruct m.
+  - destruct (eval_mut O n empty_hashmap []) as [[r0 c0] lg0]. exact Hi.
+  - destruct (eval_ro O n c lg) as [r0 lg0]. exact Hi.
+  - pose proof (eval_mut_frame O n c lg) as F. cbn zeta in F.
+    destruct (eval_mut O n c lg) as [[r0 c0] lg0]. cbn in *. apply F. exact Hi.
+Qed.
+
+Lemma step_inv op c lg : inv c -> inv (fst (fst (step O (c, lg) op))).
+Proof.
+  intros Hi. destruct op as [x v|x v|f l|b| | | | |e src|e src|x|f v|]; cbn [step].
+  - destruct (mutable_kind c); [|exact Hi]. cbn [fst].
+    destruct (set_value c x v) as [c1|e|s] eqn:E; cbn [ctx_or]; [|exact Hi|exact Hi].
+    eapply inv_set_value; eassumption.
+  - destruct (has_store c); [|exact Hi]. cbn [fst]. apply inv_with_kind.
+    destruct (set_value (as_hashmap c) x v) as [c1|e|s] eqn:E; cbn [ctx_or]; [|exact Hi|exact Hi].
+    eapply inv_set_value; [|exact E]. exact Hi.
+  - destruct (has_store c); [|exact Hi]. cbn [fst]. apply inv_with_kind.
+    destruct (set_function (as_hashmap c) f (apply_libfn f l)) as [c1|e|s] eqn:E; cbn [ctx_or]; [|exact Hi|exact Hi].
+    eapply inv_set_function; [|exact E]. exact Hi.
+  - cbn [fst]. destruct (set_builtin_functions_disabled c b) as [c1|e|s] eqn:E; cbn [ctx_or]; [|exact Hi|exact Hi].
+    eapply inv_set_builtin; eassumption.
+  - destruct (has_store c); [|exact Hi]. apply inv_clear_variables. exact Hi.
+  - destruct (has_store c); [|exact Hi]. apply inv_clear_functions. exact Hi.
+  - destruct (has_store c); [|exact Hi]. apply inv_clear. exact Hi.
+  - destruct (has_store c); exact Hi.
+  - destruct e as [|l m t]; [exact Hi|].
+    pose proof (run_entry_inv m t src c lg Hi) as RI.
+    destruct m; try (destruct (mutable_kind c); [|exact Hi]);
+      destruct (run_entry O _ t src c lg) as [[r0 c0] lg0]; exact RI.
+  - destruct e as [|l m t]; [exact Hi|].
+    pose proof (run_entry_inv m t src c lg Hi) as RI.
+    destruct m; try (destruct (mutable_kind c); [|exact Hi]);
+      destruct (run_entry O _ t src c lg) as [[r0 c0] lg0]; first [exact RI|exact Hi].
+  - exact Hi.
+  - destruct (lookup_function c f); exact Hi.
+  - exact Hi.
+Qed.
+
+Lemma run_script_inv ops : forall c lg, inv c -> inv (fst (fst (run_script O (c, lg) ops))).
+Proof.
+  induction ops as [|op ops IH]; intros c lg Hi; [exact Hi|]. cbn [run_script].
+  pose proof (step_inv op c lg Hi) as S. destruct (step O (c, lg) op) as [[c1 lg1] o1]. cbn [fst] in S.
+  specialize (IH c1 lg1 S). destruct (run_script O (c1, lg1) ops) as [[c2 lg2] os]. exact IH.
+Qed.
+
+(* an expression assignment `x = e` is set_value on the context that evaluating e leaves *)
+Lemma expr_assign x e c lg v c1 lg1 :
+  eval_mut O e c lg = (Ok v, c1, lg1) ->
+  eval_mut O (Node OAssign [wr x; e]) c lg =
+  match set_value c1 x v with
+  | Ok c2 => (Ok VEmpty, c2, lg1)
+  | Err err => (Err err, c1, lg1)
+  | Panic s => (Panic s, c1, lg1)
+  end.
+Proof.
+  intros He. rewrite eval_mut_unfold. cbn [eval_args_mut]. rewrite eval_wr, He.
+  rewrite op_eval_mut_assign. reflexivity.
+Qed.
+
+Lemma clone_identity c lg : fst (step O (c, lg) CClone) = (c, lg).
+Proof. cbn [step]. destruct (has_store c); reflexivity. Qed.
+
+End Histories.
+
+Lemma clear_spec c :
+  ((forall x, get_value (clear_variables c) x = None) /\
+   (c_kind c = KHashMap -> forall x v, exists c', set_value (clear_variables c) x v = Ok c') /\
+   iter_variables (clear_variables c) = [] /\
+   (forall f, lookup_function (clear_variables c) f = lookup_function c f) /\
+   are_builtin_functions_disabled (clear_variables c) = are_builtin_functions_disabled c) /\
+  ((forall f, lookup_function (clear_functions c) f = None) /\
+   (forall x, get_value (clear_functions c) x = get_value c x) /\
+   iter_variables (clear_functions c) = iter_variables c /\
+   are_builtin_functions_disabled (clear_functions c) = are_builtin_functions_disabled c) /\
+  ((forall x, get_value (clear c) x = None) /\
+   (forall f, lookup_function (clear c) f = None) /\
+   iter_variables (clear c) = [] /\
+   are_builtin_functions_disabled (clear c) = are_builtin_functions_disabled c).
+Proof.
+  unfold get_value, lookup_function, iter_variables, are_builtin_functions_disabled, has_store, set_value,
+    clear, clear_functions, clear_variables. cbn [c_kind c_vars c_funs c_off assoc].
+  repeat split; try (destruct (c_kind c); reflexivity).
+  intros K x v. rewrite K. eexists. reflexivity.
+Qed.
+
+Lemma listing c : inv c ->
+  (forall x v, In (x, v) (iter_variables c) <-> get_value c x = Some v) /\
+  NoDup (iter_variable_names c).
+Proof.
+  intros [Hv Hf]. unfold iter_variable_names, iter_variables, get_value, has_store.
+  destruct (c_kind c); split; try exact Hv; try (cbn; apply NoDup_nil);
+    intros x v; try (apply assoc_in_iff; exact Hv); (split; [intros []|discriminate]).
+Qed.
+
+(* ------------------------------------------------------------------------------------------ *)
+(* examples                                                                                    *)
+(* ------------------------------------------------------------------------------------------ *)
+
+Definition ex_x : str := s2l "x"%string.
+Definition ex_ctx : ctx := mkctx KHashMap [(ex_x, VInt 1)] [] false.
+(* (x = 5; 1) *)
+Definition ex_e : node :=
+  Node ORootNode [Node OChain [Node ORootNode [Node OAssign [wr ex_x; Node (OConst (VInt 5)) []]];
+                               Node ORootNode [Node (OConst (VInt 1)) []]]].
+
+Lemma ex_parse :
+  build_operator_tree (s2l "x += (x = 5; 1)"%string) = Ok (Node ORootNode [Node OAddAssign [wr ex_x; ex_e]]).
+Proof. vm_compute. reflexivity. Qed.
+
+(* `x += e` reads x AFTER e, `x = x + e` reads x BEFORE e *)
+Lemma opassign_prog_differs O :
+  get_value (ctx_of (eval_mut O (Node OAddAssign [wr ex_x; ex_e]) ex_ctx [])) ex_x = Some (VInt 6) /\
+  get_value (ctx_of (eval_mut O (Node OAssign [wr ex_x; Node OAdd [rd ex_x; ex_e]]) ex_ctx [])) ex_x = Some (VInt 2).
+Proof. split; vm_compute; reflexivity. Qed.
+
+(* with x unbound: `x += e` evaluates e (and keeps its effects) before it reports x, `x = x + e` does not *)
+Lemma opassign_prog_differs_unbound O :
+  let e := Node OAssign [wr (s2l "y"%string); Node (OConst (VInt 1)) []] in
+  eval_mut O (Node OAddAssign [wr ex_x; e]) empty_hashmap [] =
+    (Err (EVariableIdentifierNotFound ex_x), mkctx KHashMap [(s2l "y"%string, VInt 1)] [] false, []) /\
+  eval_mut O (Node OAssign [wr ex_x; Node OAdd [rd ex_x; e]]) empty_hashmap [] =
+    (Err (EVariableIdentifierNotFound ex_x), empty_hashmap, []).
+Proof. split; vm_compute; reflexivity. Qed.
+
+Lemma opassign_prog_refuted O :
+  exists (o b : operator) (x : str) (e : node) (c : ctx) (lg : log),
+    assign_base o = Some b /\ get_value c x <> None /\
+    eval_mut O (Node o [wr x; e]) c lg <> eval_mut O (Node OAssign [wr x; Node b [rd x; e]]) c lg.
+Proof.
+  exists OAddAssign, OAdd, ex_x, ex_e, ex_ctx, []. split; [reflexivity|]. split; [discriminate|].
+  intros H. pose proof (opassign_prog_differs O) as [H1 H2]. rewrite H in H1. rewrite H1 in H2. discriminate H2.
+Qed.
